@@ -19,6 +19,7 @@ RULE = ("layer A (small curves): bip340.sign for EVERY secret key in [0,n+1] x 4
 ASSUMPTIONS = ["E2 small-curve retargeting (see C03)", "vf/ref/bip340_ref.py transcribes the BIP340 algorithms; checked "
                "against the 19 official vectors in the selftest", "no length strictness is demanded of the secret key argument"]
 OBLIGATIONS = {
+    "history_sequences": "operation sequences (non-initial process states) explored",
     "e_zero": "a triple with challenge e = 0 (mod n) was signed or verified",
     "k_zero": "a signing case with k' = 0 occurred (the algorithm must fail)",
     "odd_y_pubkey": "a secret key whose public point has odd y was signed with",
@@ -109,11 +110,50 @@ def chk_verify(case):
     return []
 
 
-CASES = {"sign": chk_sign, "verify": chk_verify}
+def chk_pubkey(case):
+    """bip340.pubkey(point) for the (possibly odd-y) public point of a secret key"""
+    import bits.bips.bip340 as b340
+    C = _curve(case)
+    d = case["d"]
+    P = C.mul(d, C.G)
+    got = call(b340.pubkey, P)
+    if got != ("ok", P[0].to_bytes(32, "big")):
+        return [("C12/pubkey", f"pubkey(point({d})) = {got}")]
+    return []
+
+
+CASES = {"sign": chk_sign, "verify": chk_verify, "pubkey": chk_pubkey}
 
 
 def run_case(kind, case):
+    if kind == "seq":
+        from vf import seqexplore
+        return seqexplore.replay(run_case, case)
     return CASES[kind](case)
+
+
+def seq_ops(job):
+    """pubkey() / sign() / verify() in every order for an odd-y and an even-y key, valid and wrong-length verifications"""
+    cv = job["curve"]
+    C = smallcurve.curve(cv)
+    odd = next(d for d in range(2, C.n) if C.mul(d, C.G)[1] % 2)
+    even = next(d for d in range(2, C.n) if C.mul(d, C.G)[1] % 2 == 0)
+    ops = []
+    for d in (odd, even):
+        sk = d.to_bytes(32, "big")
+        msg = b"seq"
+        ops.append(("pubkey", {"curve": cv, "d": d}))
+        ops.append(("sign", {"curve": cv, "sk": sk.hex(), "msg": msg.hex(), "aux": "00" * 32, "token": "5a" * 32}))
+        sig = None
+        for a in range(64):
+            sig = B.sign(C, sk, msg, bytes([a]) * 32)
+            if sig:
+                break
+        pk = B.pubkey_gen(C, sk)
+        ops.append(("verify", {"curve": cv, "pk": pk.hex(), "msg": msg.hex(), "sig": sig.hex(), "what": "valid"}))
+        for what, pk2, m2, sig2 in boundary_shifts(pk, msg, sig):
+            ops.append(("verify", {"curve": cv, "pk": pk2.hex(), "msg": m2.hex(), "sig": sig2.hex(), "what": what}))
+    return ops
 
 
 def len_neighbourhood(pk, sig):
@@ -125,6 +165,15 @@ def len_neighbourhood(pk, sig):
     yield "sig byte appended", pk, sig + b"\x00"
     yield "sig s lead byte removed", pk, sig[:32] + sig[33:]
     yield "sig last byte removed", pk, sig[:-1]
+
+
+def boundary_shifts(pk, msg, sig):
+    """the same concatenated bytes pk||msg||sig with a field boundary moved (wrong-length pk or sig)"""
+    yield "pk's last byte moved into msg", pk[:-1], pk[-1:] + msg, sig
+    yield "sig's first byte moved into msg", pk, msg + sig[:1], sig[1:]
+    if msg:
+        yield "msg's first byte moved into pk", pk + msg[:1], msg[1:], sig
+        yield "msg's last byte moved into sig", pk, msg[:-1], msg[-1:] + sig
 
 
 def jobs(tier, seed):
@@ -144,10 +193,15 @@ def jobs(tier, seed):
     for b in range(nb):
         for sh in range(16):
             js.append({"name": f"secp/flips/{b}/{sh}", "part": "flips", "base": b, "shard": [sh, 16], "weight": 10})
+    from vf.runner import seq_jobs
+    js += seq_jobs(4, curve=list(T[0]), weight=4)
     return js
 
 
 def run_job(job):
+    if job["part"] == "seq":
+        from vf.runner import run_seq_job
+        return run_seq_job(job, seq_ops(job), run_case)
     acc = Acc(job)
     part, seed, cv = job["part"], job["seed"], job.get("curve")
     if part == "sign":
@@ -214,6 +268,12 @@ def run_job(job):
                                 acc.ob("len_neighbourhood")
                                 acc.check("verify", {"curve": cv, "pk": pk2.hex(), "msg": m.hex(), "sig": sig2.hex(), "what": what},
                                           chk_verify)
+                            for what, pk2, m2, sig2 in boundary_shifts(pk, m, sig):
+                                acc.evaluations += 1
+                                acc.nontrivial += 1
+                                acc.ob("len_neighbourhood")
+                                acc.check("verify", {"curve": cv, "pk": pk2.hex(), "msg": m2.hex(), "sig": sig2.hex(), "what": what},
+                                          chk_verify)
         acc.sample({"curve": cv, "verify_shard": job["shard"]})
     elif part == "real-sign":
         n = S.n
@@ -276,6 +336,8 @@ def run_job(job):
                   ("33-byte compressed pk", bytes([2]) + pk, msg, sig)]
         for what, pk2, sig2 in len_neighbourhood(pk, sig):
             cases.append((what, pk2, msg, sig2))
+        for what, pk2, m2, sig2 in boundary_shifts(pk, msg, sig):
+            cases.append((what, pk2, m2, sig2))
         sh, nsh = job["shard"]
         if sig[32] == 0:
             acc.ob("short_s_base")
